@@ -98,7 +98,7 @@ func init() {
 	core.Register(&core.Rule{
 		Name: "R-NESTEDSTATE",
 		Doc: "A search that holds the per-search state does not take a second one. Package meta: the getter of pooled state is (*Engine).getSearchState (single GC-proof slot, then sync.Pool). 'Acquires' is computed over static calls: a function acquires if it calls the getter, or calls an acquiring function that has no *SearchState parameter of its own (a function with such a parameter works on the state it is given; a function with a variadic ...*SearchState acquires only when called without one; a call made only where a component field of the receiver is nil - the fallback for a searcher that was not built - is not a path of a working engine and does not count). In every function that was handed a state (a *SearchState parameter), no call reaches an acquisition: a callee with a variadic state parameter is given the state, and no acquiring callee without a state parameter is called, except where the function's own state parameter is nil (it holds nothing). A nested acquisition finds the single slot empty, takes a second full SearchState from the pool, and the two swap places between slot and pool on every call: results are unchanged, but the pooled one is dropped at each GC and rebuilt (for the bounded backtracker: a 64 MB visited table per rebuild) - the zero-allocation and bounded-heap clauses of C20 (seed C20-18: the optional state argument dropped in one call).",
-		Min: 2, NeedSSA: true,
+		Min: 1, NeedSSA: true,
 		Run: func(p *core.Prog) *core.RuleResult {
 			res := &core.RuleResult{}
 			kc := core.NewKeyCounter()
